@@ -273,7 +273,10 @@ impl<'a, W: 'static, R: 'static, T: 'static> RuntimeScope<'a, W, R, T> {
             XExpr::LiteralInt(i) => {
                 Ok(ManagedXValue::new(XValue::Int(LazyBigint::from(*i)), rt)?.into())
             }
-            XExpr::LiteralFloat(r) => Ok(ManagedXValue::new(XValue::Float(*r), rt)?.into()),
+            XExpr::LiteralFloat(r) => {
+                // a literal such as 1e999 parses to infinity: go through the checked constructor
+                Ok(ManagedXValue::from_result(XValue::float(*r, &rt)?, rt)?.into())
+            }
             XExpr::LiteralString(s) => Ok(ManagedXValue::new(
                 XValue::String(Box::new(FencedString::from_string(s.clone()))),
                 rt,
